@@ -558,7 +558,7 @@ func (w *world) lockedDirs() []int {
 	return bad
 }
 
-const watchdog = 3 * time.Second
+var watchdog = hx.ScaledTimeout(3 * time.Second)
 
 // runHistory executes ops sequentially; after every call the monitor checks
 // that every directory lock is free. It returns "" or a description of the
@@ -776,7 +776,7 @@ func stress(seed uint64, nfs bool, workers, opsPer int, res *hx.Result) string {
 	go func() { wg.Wait(); close(done) }()
 	select {
 	case <-done:
-	case <-time.After(20 * time.Second):
+	case <-time.After(hx.ScaledTimeout(20 * time.Second)):
 		return fmt.Sprintf("concurrent workload (%d goroutines x %d calls, seed %d) did not terminate within 20s: deadlock or leaked lock", workers, opsPer, seed)
 	}
 	if res != nil {
